@@ -12,6 +12,10 @@ class Deadlock(Exception):
     pass
 
 
+class StepLimit(Deadlock):
+    """the execution needed more scheduling steps than allowed: a long run or a livelock, the scheduler cannot tell"""
+
+
 class Scheduler:
     def __init__(self, chooser, trace=None, max_steps=20000):
         """chooser(runnable_tids, step, current_tid) -> tid; trace(filename) -> bool selects files traced by line"""
@@ -109,7 +113,7 @@ class Scheduler:
                     raise Deadlock("no runnable thread; states %r" % (self.state,))
                 self.steps += 1
                 if self.steps > self.max_steps:
-                    raise Deadlock("step limit %d exceeded (livelock?)" % self.max_steps)
+                    raise StepLimit("step limit %d exceeded (livelock?)" % self.max_steps)
                 if len(runnable) > 1:
                     pick = self.chooser(runnable, self.steps, self.current)
                     self.choices.append((len(runnable), runnable.index(pick)))
